@@ -141,6 +141,7 @@ def check(sim, case, st):
         if o.named.kind == 'entry' and 'badutf8' in byte_classes(o.named.loc) and o.state == 'untouched':
             st.probes['invalid-utf8-refused'] += 1
     if not trashed:
+        st.probes['premise-not-met:nothing-trashed'] += 1
         return []
     lo = min(r.clock).replace(microsecond=0) if r.clock else None
     hi = max(r.clock).replace(microsecond=0) if r.clock else None
